@@ -36,7 +36,7 @@ theorem run_is_path (P : Prog) (k : Nat) (f : Func) (cfg : Cfg) (cert : List St)
     (hcert : checkCert P f cfg cert = true)
     (hsub : ∀ e ∈ intraEdges P k f cfg cert, e ∈ g.edges) :
     ∀ (r : List St) (s : St), Reachable P f cfg s → Run P f cfg (s :: r) →
-      IsPath g ((s :: r).map fun x => (k, x.pc)) := by
+      IsPath g ((s :: r).map fun x => (k, x)) := by
   intro r
   induction r with
   | nil => intro s _ _; exact .single _
@@ -58,22 +58,23 @@ theorem check_free_run_bounded (P : Prog) (k : Nat) (f : Func) (cfg : Cfg) (cert
     (rank : Node → Nat) (hcert : checkCert P f cfg cert = true)
     (hsub : ∀ e ∈ intraEdges P k f cfg cert, e ∈ g.edges) (hrank : validRank g rank = true)
     (s : St) (r : List St) (hr : Reachable P f cfg s) (hrun : Run P f cfg (s :: r))
-    (hfree : ∀ x ∈ (s :: r).dropLast, g.isCheck (k, x.pc) = false) :
-    (s :: r).length ≤ rank (k, s.pc) + 1 := by
+    (hfree : ∀ x ∈ (s :: r).dropLast, g.isCheck (k, x) = false) :
+    (s :: r).length ≤ rank (k, s) + 1 := by
   have hp := run_is_path P k f cfg cert g hcert hsub r s hr hrun
-  have hc : ∀ w ∈ (((s :: r).map fun x => (k, x.pc))).dropLast, g.isCheck w = false := by
+  have hc : ∀ w ∈ (((s :: r).map fun x => (k, x))).dropLast, g.isCheck w = false := by
     intro w hw
     rw [← List.map_dropLast] at hw
     obtain ⟨x, hx, rfl⟩ := List.mem_map.mp hw
     exact hfree x hx
-  have := path_bound hrank (r.map fun x => (k, x.pc)) (k, s.pc) (by simpa using hp) (by simpa using hc)
+  have := path_bound hrank (r.map fun x => (k, x)) (k, s) (by simpa using hp) (by simpa using hc)
   simpa using this
 
 /-! ## non-vacuity and witness -/
 
 /-- a two-node loop with a check node admits a ranking … -/
-example : validRank ⟨[((0, 0), (0, 1)), ((0, 1), (0, 0))], ({} : Std.HashSet Node).insert (0, 1)⟩
-    (fun u => if u = (0, 0) then 1 else 0) = true := by
+example : validRank ⟨[((0, ⟨0, [], []⟩), (0, ⟨1, [], []⟩)), ((0, ⟨1, [], []⟩), (0, ⟨0, [], []⟩))],
+      ({} : Std.HashSet Node).insert (0, ⟨1, [], []⟩)⟩
+    (fun u => if u = (0, ⟨0, [], []⟩) then 1 else 0) = true := by
   simp [validRank, Graph.isCheck]
 
 /-- … and no function ranks a cycle without a check node (so a program with such a cycle is
